@@ -188,7 +188,7 @@ fn o6_3_window_limit_and_reopen() {
     assert!(s.pending_count() == 1 && s.total_size() == 3);
     // the receiver reports its window base = our next id: everything is acknowledged
     s.acknowledge(s.next_id());
-    assert!(s.base_id() == s.next_id() && s.alloc == 0, "[C11,C06] a full acknowledgement empties window and allocation");
+    assert!(s.base_id() == s.next_id() && s.alloc == 0, "[C11,C06,C05] a full acknowledgement empties window and allocation");
     assert!(s.total_size() == 1, "[C20] acknowledged packets leave the counter");
     let r3 = s.emit_packet(fid);
     assert!(r3.is_some(), "[C11] the held-back packet of any mode is sent once the window reopens");
